@@ -1020,6 +1020,12 @@ where
 
     #[inline]
     async fn read_struct_end(&mut self) -> Result<(), ThriftException> {
+        self.last_read_field_id = self.read_field_id_stack.pop().ok_or_else(|| {
+            new_protocol_exception(
+                ProtocolExceptionKind::InvalidData,
+                "ReadStructEnd called without matching ReadStructBegin",
+            )
+        })?;
         Ok(())
     }
 
@@ -1567,6 +1573,12 @@ impl TInputProtocol for TCompactInputProtocol<&mut Bytes> {
 
     #[inline]
     fn read_struct_end(&mut self) -> Result<(), ThriftException> {
+        self.last_read_field_id = self.read_field_id_stack.pop().ok_or_else(|| {
+            new_protocol_exception(
+                ProtocolExceptionKind::InvalidData,
+                "ReadStructEnd called without matching ReadStructBegin",
+            )
+        })?;
         Ok(())
     }
 
